@@ -608,7 +608,10 @@ def op_scan(case, o):
         out = ["ragged2", pu[1], pu[2], pc[2]]
         return out if same_snap(snap, snapshot(a)) else ["mutated", "operand changed"]
     elif name == "diff":
-        r = np.diff(a, n=int(n), axis=ax)
+        if int(n) == 1 and o.get("defaults"):        # np.diff(a): n and axis left to their defaults
+            r = np.diff(a)
+        else:
+            r = np.diff(a, n=int(n), axis=ax)
     else:
         raise ValueError(name)
     out = proj_any(r)
